@@ -37,6 +37,7 @@ def scratch_root():
     global SCRATCH_ROOT
     if SCRATCH_ROOT is None:
         base = "/dev/shm" if os.path.isdir("/dev/shm") and os.access("/dev/shm", os.W_OK) else tempfile.gettempdir()
+        _sweep_stale_scratch(base)
         SCRATCH_ROOT = tempfile.mkdtemp(prefix="mcx-%d-" % os.getpid(), dir=base)
         import atexit
         pid = os.getpid()
@@ -47,6 +48,22 @@ def scratch_root():
                 shutil.rmtree(root, ignore_errors=True)
         atexit.register(_rm)
     return SCRATCH_ROOT
+
+
+def _sweep_stale_scratch(base):
+    """scratch directories of worker processes that were terminated (time cap) are removed by the next run"""
+    try:
+        for name in os.listdir(base):
+            if not name.startswith("mcx-"):
+                continue
+            try:
+                pid = int(name.split("-")[1])
+            except (IndexError, ValueError):
+                continue
+            if not os.path.exists("/proc/%d" % pid):
+                shutil.rmtree(os.path.join(base, name), ignore_errors=True)
+    except OSError:
+        pass
 
 
 def reset_scratch_after_fork():
